@@ -3,6 +3,7 @@ package rest
 import (
 	"context"
 	"errors"
+	"io"
 	"net/http"
 	"net/url"
 	"strings"
@@ -21,6 +22,7 @@ var vrfEntries = map[string]func(){
 	"VrfC11Auth":      VrfC11Auth,
 	"VrfC11ReadRoutes": VrfC11ReadRoutes,
 	"VrfC11Router":     VrfC11Router,
+	"VrfC11PeerAdd":    VrfC11PeerAdd,
 }
 
 // ---- response recorder
@@ -108,6 +110,10 @@ func (s *vrfClusterSvc) Recover(ctx context.Context, in cid.Cid, out *types.Glob
 }
 func (s *vrfClusterSvc) RecoverLocal(ctx context.Context, in cid.Cid, out *types.PinInfo) error {
 	s.calls = append(s.calls, vrfCall{method: "RecoverLocal", cid: in})
+	return s.ret()
+}
+func (s *vrfClusterSvc) PeerAdd(ctx context.Context, in peer.ID, out *types.ID) error {
+	s.calls = append(s.calls, vrfCall{method: "PeerAdd", peer: in})
 	return s.ret()
 }
 func (s *vrfClusterSvc) PeerRemove(ctx context.Context, in peer.ID, out *struct{}) error {
@@ -607,3 +613,81 @@ func VrfC11Router() {
 }
 
 const vrfGoodPeer = "QmZHKZDavkvNfA9gSAg7HALv8jF7BJaKjUc9U2LSuvUySB"
+
+// ---- request bodies
+
+type vrfBody struct {
+	data   []byte
+	pos    int
+	chunk  int // bytes handed out per Read (the body arrives in pieces)
+	closed int
+}
+
+func (b *vrfBody) Read(p []byte) (int, error) {
+	if b.pos >= len(b.data) {
+		return 0, io.EOF
+	}
+	n := len(b.data) - b.pos
+	if b.chunk > 0 && n > b.chunk {
+		n = b.chunk
+	}
+	if n > len(p) {
+		n = len(p)
+	}
+	copy(p, b.data[b.pos:b.pos+n])
+	b.pos += n
+	return n, nil
+}
+func (b *vrfBody) Close() error { b.closed++; return nil }
+
+// VrfC11PeerAdd: POST /peers carries its argument in the body: an undecodable
+// body or peer ID is refused with a 4xx and nothing reaches the cluster; a
+// decodable one performs exactly PeerAdd with the peer it named.
+func VrfC11PeerAdd() {
+	svc := &vrfClusterSvc{}
+	svc.result = vrf_choice("cluster_answer", 3)
+	a := vrfNewAPI(svc)
+	bodies := []struct {
+		text string
+		peer string // the peer named by a well-formed body
+	}{
+		{`{"peer_id":"` + vrfGoodPeer + `"}`, vrfGoodPeer},
+		{`{"peer_id":"` + vrfGoodPeer + `","comment":"ignored"}`, vrfGoodPeer},
+		{` {"peer_id" : "QmP63DkAFEnDYNjDYBpyNDfttu1fvUw99x1brscPzpqmmq"} `, "QmP63DkAFEnDYNjDYBpyNDfttu1fvUw99x1brscPzpqmmq"},
+		{`{"peer_id":"notapeer"}`, ""},
+		{`{"peer_id":""}`, ""},
+		{`{}`, ""},
+		{`{"peer_id":5}`, ""},
+		{`{"peer_id":"` + vrfGoodPeer, ""}, // cut short
+		{`peer_id=` + vrfGoodPeer, ""},
+		{``, ""},
+		{`["` + vrfGoodPeer + `"]`, ""},
+		{`null`, ""},
+	}
+	b := bodies[vrf_choice("body", len(bodies))]
+	body := &vrfBody{data: []byte(b.text), chunk: []int{0, 7}[vrf_choice("body_in_pieces", 2)]}
+	r := &http.Request{Method: "POST", URL: &url.URL{Path: "/peers"}, Header: http.Header{}, Body: body}
+	w := &vrfWriter{hdr: http.Header{}}
+	a.peerAddHandler(w, r)
+	vrf_assert(w.headers == 1, "C11.response.one-status")
+	vrf_assert(w.documents <= 1, "C11.response.one-document")
+	if b.peer == "" {
+		vrf_assert(w.status >= 400 && w.status < 500, "C11.malformed.4xx")
+		vrf_assert(len(svc.calls) == 0, "C11.malformed.no-rpc")
+		vrf_assert(w.documents == 1, "C11.malformed.error-document")
+		vrf_reach("C11.peeradd.end-malformed")
+		return
+	}
+	vrf_assert(len(svc.calls) == 1, "C11.wellformed.one-rpc")
+	if len(svc.calls) != 1 {
+		return
+	}
+	want, _ := peer.Decode(b.peer)
+	vrf_assert(svc.calls[0].method == "PeerAdd" && svc.calls[0].peer == want, "C11.peeradd.same-peer")
+	if svc.result == 0 {
+		vrf_assert(w.status >= 200 && w.status < 300 && w.documents == 1, "C11.ok.2xx")
+	} else {
+		vrf_assert(w.status >= 400 && w.documents == 1, "C11.error.status")
+	}
+	vrf_reach("C11.peeradd.end-wellformed")
+}
